@@ -45,22 +45,38 @@ def StoreTbl.keys (c : PubCfg) : StoreTbl → List Bytes
   | .maps => c.maps
   | .other _ => []
 
-def CondE.eval (c : PubCfg) (s : Bytes) : CondE → Bool
+/-- a condition of IsPublicSymbol; `par` is the parent store's IsPublicSymbol (`none`: no parent).
+    `parentPublic` without a parent is a call on a nil interface in Go; no program the extractor has met
+    makes it unguarded, the interpretation answers `false` there. -/
+def CondE.eval (par : Option (Bytes → Bool)) (c : PubCfg) (s : Bytes) : CondE → Bool
   | .const b => b
   | .lookup t n => (t.keys c).contains (n.eval s)
   | .segsMoreThan n => decide ((splitDot s).length > n)
   | .dotNotFirst => s.contains 46 && s.head? != some 46
   | .lastDotNotFirst => (s.drop 1).contains 46
-  | .not a => !a.eval c s
-  | .and a b => a.eval c s && b.eval c s
-  | .or a b => a.eval c s || b.eval c s
+  | .hasParent => par.isSome
+  | .parentPublic n => match par with
+    | some f => f (n.eval s)
+    | none => false
+  | .not a => !a.eval par c s
+  | .and a b => a.eval par c s && b.eval par c s
+  | .or a b => a.eval par c s || b.eval par c s
   | .other _ => false
 
-/-- IsPublicSymbol, interpreted -/
-def DTree.eval (c : PubCfg) (s : Bytes) : DTree → Bool
-  | .ret e => e.eval c s
-  | .ite e t f => if e.eval c s then t.eval c s else f.eval c s
+/-- the body of IsPublicSymbol run on one store, given its parent's answer function -/
+def DTree.evalWith (par : Option (Bytes → Bool)) (c : PubCfg) (s : Bytes) : DTree → Bool
+  | .ret e => e.eval par c s
+  | .ite e t f => if e.eval par c s then t.evalWith par c s else f.evalWith par c s
   | .unknown _ => false
+
+/-- `store.parent.IsPublicSymbol`: the same program on the parent's key sets, whose own parent is the next
+    store up the chain -/
+def DTree.ancestors (d : DTree) : List (List Bytes × List Bytes) → Option (Bytes → Bool)
+  | [] => none
+  | (m, p) :: rest => some fun s => d.evalWith (d.ancestors rest) { maps := m, pub := p, parents := rest } s
+
+/-- IsPublicSymbol, interpreted (on a store with its parent chain) -/
+def DTree.eval (c : PubCfg) (s : Bytes) (d : DTree) : Bool := d.evalWith (d.ancestors c.parents) c s
 
 /- ------------------------------------------------------------------------------- VisitSymbol -/
 
@@ -150,6 +166,8 @@ def CondE.abs (a : Atoms) : CondE → Option Bool
   | .segsMoreThan n => if n == 1 then some a.dotted else none
   | .dotNotFirst => none
   | .lastDotNotFirst => none
+  | .hasParent => none          -- "public for the store": nothing about the parent store may decide
+  | .parentPublic _ => none
   | .not x => (x.abs a).map (!·)
   | .and x y => match x.abs a, y.abs a with
     | some u, some v => some (u && v)
@@ -248,7 +266,8 @@ theorem allAtoms_complete (a : Atoms) : a ∈ allAtoms := by
   rcases a with ⟨a, b, d, m, p⟩
   cases a <;> cases b <;> cases d <;> cases m <;> cases p <;> decide
 
-theorem CondE.abs_sound (c : PubCfg) (s : Bytes) : ∀ (e : CondE) (b : Bool), e.abs (atomsOf c s) = some b → e.eval c s = b
+theorem CondE.abs_sound (par : Option (Bytes → Bool)) (c : PubCfg) (s : Bytes) :
+    ∀ (e : CondE) (b : Bool), e.abs (atomsOf c s) = some b → e.eval par c s = b
   | .const _, b, h => by simpa [CondE.abs, CondE.eval] using h
   | .lookup t n, b, h => by
     cases t <;> cases n <;> simp_all [CondE.abs, CondE.eval, atomsOf, StoreTbl.keys, NameE.eval]
@@ -259,35 +278,43 @@ theorem CondE.abs_sound (c : PubCfg) (s : Bytes) : ∀ (e : CondE) (b : Bool), e
     · cases h
   | .dotNotFirst, _, h => by simp [CondE.abs] at h
   | .lastDotNotFirst, _, h => by simp [CondE.abs] at h
+  | .hasParent, _, h => by simp [CondE.abs] at h
+  | .parentPublic _, _, h => by simp [CondE.abs] at h
   | .not x, b, h => by
     simp only [CondE.abs, Option.map_eq_some_iff] at h
     obtain ⟨u, hu, rfl⟩ := h
-    simp [CondE.eval, CondE.abs_sound c s x u hu]
+    simp [CondE.eval, CondE.abs_sound par c s x u hu]
   | .and x y, b, h => by
     simp only [CondE.abs] at h
     split at h
     · next u v hu hv =>
       simp only [Option.some.injEq] at h
-      simp [CondE.eval, CondE.abs_sound c s x u hu, CondE.abs_sound c s y v hv, h]
+      simp [CondE.eval, CondE.abs_sound par c s x u hu, CondE.abs_sound par c s y v hv, h]
     · cases h
   | .or x y, b, h => by
     simp only [CondE.abs] at h
     split at h
     · next u v hu hv =>
       simp only [Option.some.injEq] at h
-      simp [CondE.eval, CondE.abs_sound c s x u hu, CondE.abs_sound c s y v hv, h]
+      simp [CondE.eval, CondE.abs_sound par c s x u hu, CondE.abs_sound par c s y v hv, h]
     · cases h
   | .other _, _, h => by simp [CondE.abs] at h
 
-theorem DTree.abs_sound (c : PubCfg) (s : Bytes) : ∀ (d : DTree) (b : Bool), d.abs (atomsOf c s) = some b → d.eval c s = b
-  | .ret e, b, h => CondE.abs_sound c s e b h
+/-- whatever the parent store answers: a tree whose abstract value is defined never asks it -/
+theorem DTree.absWith_sound (par : Option (Bytes → Bool)) (c : PubCfg) (s : Bytes) :
+    ∀ (d : DTree) (b : Bool), d.abs (atomsOf c s) = some b → d.evalWith par c s = b
+  | .ret e, b, h => CondE.abs_sound par c s e b h
   | .ite e t f, b, h => by
     simp only [DTree.abs] at h
     split at h
-    · next he => simp [DTree.eval, CondE.abs_sound c s e true he, DTree.abs_sound c s t b h]
-    · next he => simp [DTree.eval, CondE.abs_sound c s e false he, DTree.abs_sound c s f b h]
+    · next he => simp [DTree.evalWith, CondE.abs_sound par c s e true he, DTree.absWith_sound par c s t b h]
+    · next he => simp [DTree.evalWith, CondE.abs_sound par c s e false he, DTree.absWith_sound par c s f b h]
     · cases h
   | .unknown _, _, h => by simp [DTree.abs] at h
+
+theorem DTree.abs_sound (c : PubCfg) (s : Bytes) (d : DTree) (b : Bool) (h : d.abs (atomsOf c s) = some b) :
+    d.eval c s = b :=
+  DTree.absWith_sound _ c s d b h
 
 theorem reference_eq (c : PubCfg) (s : Bytes) : (atomsOf c s).reference = isPublicSymbol c s := by
   unfold Atoms.reference atomsOf isPublicSymbol
